@@ -18,7 +18,7 @@ use rand_chacha::ChaCha8Rng;
 use serde_json::{json, Value};
 use std::cell::Cell;
 use std::sync::{Arc, Condvar, Mutex};
-use std::time::{Duration, Instant};
+use std::time::Duration;
 use text_utils::data::loading::PipelineIterator;
 use text_utils::data::Pipeline;
 use text_utils::verif::{install, Point};
@@ -358,7 +358,7 @@ fn run_controlled(w: usize, n: usize, sched: &[String], blocking: bool, drain: b
     // wait until all workers are parked at the loop top
     {
         let mut g = ctl.m.lock().unwrap();
-        let t0 = Instant::now();
+        let mut t0 = Budget::now();
         while (1..=w).any(|k| g.parked[k].is_none() && !g.exited[k]) {
             let (g2, to) = ctl.cv.wait_timeout(g, Duration::from_millis(100)).unwrap();
             g = g2;
@@ -393,7 +393,7 @@ fn run_controlled(w: usize, n: usize, sched: &[String], blocking: bool, drain: b
             let log_before = g.log.len();
             g.cons_cmd = Some(if tok == "c" { 'c' } else { 'x' });
             ctl.cv.notify_all();
-            let t0 = Instant::now();
+            let mut t0 = Budget::now();
             let limit = if would_block { BLOCK_PROBE } else { STEP_TIMEOUT };
             while g.cons_done_cmds == before {
                 let (g2, _) = ctl.cv.wait_timeout(g, Duration::from_millis(5)).unwrap();
@@ -438,7 +438,7 @@ fn run_controlled(w: usize, n: usize, sched: &[String], blocking: bool, drain: b
         let before = g.arrivals[k];
         g.grant[k] = true;
         ctl.cv.notify_all();
-        let t0 = Instant::now();
+        let mut t0 = Budget::now();
         let limit = if would_block { BLOCK_PROBE } else { STEP_TIMEOUT };
         while g.arrivals[k] == before {
             let (g2, _) = ctl.cv.wait_timeout(g, Duration::from_millis(5)).unwrap();
@@ -529,7 +529,7 @@ fn run_controlled(w: usize, n: usize, sched: &[String], blocking: bool, drain: b
             }
             // the upstream wrapper is dropped when the last worker is gone
             let mut g = ctl.m.lock().unwrap();
-            let t0 = Instant::now();
+            let mut t0 = Budget::now();
             while !g.all_exited && t0.elapsed() < STEP_TIMEOUT {
                 let (g2, _) = ctl.cv.wait_timeout(g, Duration::from_millis(5)).unwrap();
                 g = g2;
@@ -581,7 +581,7 @@ fn run_free(w: usize, n: usize, seed: u64, drop_after: Option<usize>, slow: f64,
     // exit signal: the upstream wrapper is dropped when the last worker ends
     {
         let mut g = ctl.m.lock().unwrap();
-        let t0 = Instant::now();
+        let mut t0 = Budget::now();
         while !g.all_exited && w > 0 {
             let (g2, _) = ctl.cv.wait_timeout(g, Duration::from_millis(10)).unwrap();
             g = g2;
@@ -628,7 +628,7 @@ fn run_bulk(w: usize, n: usize, case: &Value) -> Value {
         }
         let _ = tx.send(runs);
     });
-    match rx.recv_timeout(Duration::from_secs(60)) {
+    match recv_budget(&rx, Duration::from_secs(60)) {
         Ok(runs) => json!({"st": "ok", "mode": "bulk", "W": w, "N": n, "cap": w, "ended": true,
                            "runs": runs.iter().map(|(a, l)| json!([a, l])).collect::<Vec<_>>(),
                            "calls": calls.load(std::sync::atomic::Ordering::SeqCst),
@@ -717,9 +717,9 @@ fn run_multi(w: usize, n: usize, npipes: usize, nested: bool, seed: u64) -> Vec<
         }
         let _ = dtx.send(());
     });
-    let finished = drx.recv_timeout(Duration::from_secs(20)).is_ok();
+    let finished = recv_budget(&drx, Duration::from_secs(20)).is_ok();
     // the upstream wrappers are dropped when the last worker of their pipe ends
-    let t0 = Instant::now();
+    let mut t0 = Budget::now();
     while finished && t0.elapsed() < Duration::from_secs(5) && !ctls.iter().all(|c| nested || c.m.lock().unwrap().all_exited) {
         std::thread::sleep(Duration::from_millis(5));
     }
@@ -980,7 +980,7 @@ fn run_buffered_controlled(cap: usize, n: usize, sched: &[String], blocking: boo
     // wait for a producer arrival (next PullReq) or exit
     let wait_arrival = |want_req: u64, limit: Duration| -> bool {
         let mut g = ctl.m.lock().unwrap();
-        let t0 = Instant::now();
+        let mut t0 = Budget::now();
         while g.req < want_req && !g.exited {
             let (g2, _) = ctl.cv.wait_timeout(g, Duration::from_millis(5)).unwrap();
             g = g2;
@@ -1175,7 +1175,7 @@ fn run_buffered_free(cap: usize, n: usize, seed: u64, drop_after: Option<usize>,
     let mut stuck_pulls = (0usize, 0usize);
     {
         let mut g = ctl.m.lock().unwrap();
-        let t0 = Instant::now();
+        let mut t0 = Budget::now();
         while !g.exited {
             let (g2, _) = ctl.cv.wait_timeout(g, Duration::from_millis(10)).unwrap();
             g = g2;
